@@ -25,8 +25,48 @@ static mut HEAD: [usize; NCH] = [0; NCH];
 static mut TAIL: [usize; NCH] = [0; NCH];
 static mut TAGS: [[u8; QCAP]; NCH] = [[0; QCAP]; NCH];
 
+/// Script mode (worker-only harnesses): the requests are not queued by a
+/// caller; `recv`/`try_recv` *build* the next request of a concrete script at
+/// the moment it is received. An item that went through the heap queue has
+/// lost its concrete variant for symbolic execution (the variant of
+/// `WorkerRequest` is niche-encoded in payload bytes), and `run_inner` would
+/// then be explored for every request kind at every step.
+pub(crate) mod script {
+    #[derive(Clone, Copy)]
+    pub(crate) struct Step {
+        /// 0 AppendFile, 1 RemoveChunks, 2 Write
+        pub kind: u8,
+        /// Write: data length
+        pub d: u8,
+        /// Write: carries a callback
+        pub cb: bool,
+        /// AppendFile: ghost slot of the new file; RemoveChunks: first path
+        pub slot: u8,
+        /// RemoveChunks: optional second path (0xff = none)
+        pub slot2: u8,
+        /// Write: upto_offset; AppendFile: starting offset
+        pub off: u64,
+    }
+    pub(crate) const STEP0: Step = Step { kind: 2, d: 0, cb: false, slot: 0, slot2: 0xff, off: 0 };
+    pub(crate) static mut ON: bool = false;
+    pub(crate) static mut STEPS: [Step; super::NREQ] = [STEP0; super::NREQ];
+    pub(crate) static mut N: usize = 0;
+    pub(crate) static mut PC: usize = 0;
+
+    pub(crate) fn step(i: usize) -> Step {
+        unsafe { STEPS[i] }
+    }
+    pub(crate) fn remaining() -> usize {
+        unsafe { N - PC }
+    }
+}
+
 /// Items that can travel through the ghost channel.
 pub(crate) trait GhostItem: Sized {
+    /// script mode: build the i-th request of the script
+    fn ghost_from_script(_i: usize) -> Option<Self> {
+        None
+    }
     /// small integer naming the enum variant (read when the item is sent,
     /// i.e. when its discriminant is still a constant for symbolic execution)
     fn ghost_tag(&self) -> u8 {
@@ -180,6 +220,19 @@ impl<T: GhostItem> Receiver<T> {
     /// Blocking receive. An empty queue means the script is over: reported as
     /// "channel closed" (all senders dropped), which ends `run_inner`.
     pub(crate) fn recv(&self) -> Result<T, RecvError> {
+        unsafe {
+            if script::ON {
+                if script::PC >= script::N {
+                    return Err(RecvError);
+                }
+                let i = script::PC;
+                script::PC += 1;
+                return match T::ghost_from_script(i) {
+                    Some(t) => Ok(t),
+                    None => Err(RecvError),
+                };
+            }
+        }
         match self.ch.pop(self.id) {
             Some(t) => Ok(t),
             None => Err(RecvError),
@@ -192,6 +245,19 @@ impl<T: GhostItem> Receiver<T> {
     /// the k-th try_recv call of the run reports Empty); harnesses enumerate
     /// the masks.
     pub(crate) fn try_recv(&self) -> Result<T, TryRecvError> {
+        unsafe {
+            if script::ON {
+                if script::PC >= script::N || sched::batch_break() {
+                    return Err(TryRecvError::Empty);
+                }
+                let i = script::PC;
+                script::PC += 1;
+                return match T::ghost_from_script(i) {
+                    Some(t) => Ok(t),
+                    None => Err(TryRecvError::Empty),
+                };
+            }
+        }
         if pending(self.id) == 0 {
             return Err(TryRecvError::Empty);
         }
